@@ -49,6 +49,11 @@ func genBlockSpec(t *rapid.T) BlockSpec {
 
 func genCase(t *rapid.T, crash bool) Case {
 	c := Case{Engine: "solo"}
+	// the real consensus engine (honestly voted blocks, production import paths) in a fifth of the
+	// schedules, a sixth of the crash cases (each block costs real VRF / BLS verification)
+	if (crash && rapid.IntRange(0, 5).Draw(t, "engine") == 0) || (!crash && rapid.IntRange(0, 4).Draw(t, "engine") == 0) {
+		c.Engine = "ucon"
+	}
 	maxTrunk := 8
 	if crash {
 		maxTrunk = 6
@@ -217,6 +222,8 @@ func newFactory(name string) Factory {
 	switch name {
 	case "", "solo":
 		return newSoloFactory()
+	case "ucon":
+		return newUconFactory()
 	}
 	return nil
 }
@@ -581,6 +588,14 @@ func (r *run) crashCall(j int, base crashdb.Snapshot, raw []logEntry, blocks typ
 				out := kit.Fail("crash-wedged", "%s\nafter recovery State() fails: %v", where(k), derr)
 				return &out
 			}
+			if got != want && pos.insideWindow && pos.reorg && tolerate(clsTornReorg) {
+				// the same root cause seen through the real engine's fork choice: after a death
+				// inside the reorganisation's separate index writes the restarted node keeps the old
+				// head while the canonical index already names the new branch; ucon never reorganises
+				// back at an equal height, so the node stays on the abandoned branch for good
+				r.label("torn-reorg:stays-on-old-branch")
+				return nil
+			}
 			if got != want {
 				out := kit.Fail("crash-diverged", "%s\nafter restart, re-import (err=%v) and the further block #%d %s:\n  crashed node: head #%d %s root %s accounts %s\n  never crashed: head #%d %s root %s accounts %s",
 					where(k), rerr, x.NumberU64(), short(x.Hash()), got.number, short(got.head), short(got.root), got.accounts, want.number, short(want.head), short(want.root), want.accounts)
@@ -665,7 +680,7 @@ var _ = kit.Register(kit.Prop[Case]{
 		"reordered, duplicated and offered to InsertChain; invariants after every call and after a clean restart. Non-trivial: a call reorganised the " +
 		"chain or offered an invalid block whose parent was known",
 	Gen: func(t *rapid.T) Case { return genCase(t, false) }, Run: runCase,
-	Quick: 300, Thorough: 5000, Chunk: 50, MinNonTrivialPct: 40,
+	Quick: 220, Thorough: 5000, Chunk: 50, MinNonTrivialPct: 40,
 })
 
 var _ = kit.Register(kit.Prop[Case]{
@@ -675,5 +690,5 @@ var _ = kit.Register(kit.Prop[Case]{
 		"plus one further valid block head and state equal those of a node that never crashed; some restarted nodes continue the schedule instead. " +
 		"Non-trivial: a crash point strictly between a block's body write and its head marker was evaluated",
 	Gen: func(t *rapid.T) Case { return genCase(t, true) }, Run: runCase,
-	Quick: 28, Thorough: 450, Chunk: 4, MinNonTrivialPct: 45,
+	Quick: 20, Thorough: 450, Chunk: 4, MinNonTrivialPct: 45,
 })
